@@ -529,9 +529,14 @@ class ServerHarness(h_lib.LibHarness):
         req = d['request']
         if req == 'rename' and d.get('rename'):
             base.update(line=d['rename']['line'], character=d['rename']['character'], new_name=d['rename']['new_name'])
+        if v['law'] == 'C13.code-actions-operate-on-the-block-at-the-range-start':
+            base.update(request='code_action_range', line=v['info'].get('line', 0))
         res = driver.run([base], timeout=60)
         v['replay_script'], v['replay_result'] = [base], res
         last = res[-1]
+        if v['law'] == 'C13.code-actions-operate-on-the-block-at-the-range-start':
+            v['replay_verdict'] = 'native (Helix), empty range vs range ending two lines below: %s' % str(last)[:300]
+            return isinstance(last, list) and len(last) == 2 and last[0] != last[1]
         if isinstance(last, dict) and ('panic' in last or 'crash' in last):
             v['replay_verdict'] = 'native: %s' % str(last)[:200]
             return v['law'].startswith('C12.')
